@@ -43,13 +43,13 @@ impl SchemaOpts {
     }
 }
 
-const OBJECTS: &[&str] = &["User", "Post", "Comment", "Tag", "Org", "Team", "Item"];
-const INTERFACES: &[&str] = &["Node", "Entity", "Named"];
-const UNIONS: &[&str] = &["SearchResult", "Media"];
-const ENUMS: &[&str] = &["Role", "Status", "Color"];
+const OBJECTS: &[&str] = &["User", "Post", "Comment", "Tag", "Org", "Team", "Item", "_Service", "_Draft", "lowerCaseType"];
+const INTERFACES: &[&str] = &["Node", "Entity", "Named", "_Shared"];
+const UNIONS: &[&str] = &["SearchResult", "Media", "_Entity"];
+const ENUMS: &[&str] = &["Role", "Status", "Color", "_Kind"];
 const ENUM_VALUES: &[&str] = &["ADMIN", "USER", "GUEST", "ACTIVE", "DONE", "RED", "GREEN", "lower", "Mixed_1"];
-const INPUTS: &[&str] = &["Filter", "Page", "Sort"];
-const SCALARS: &[&str] = &["Date", "JSON", "URL"];
+const INPUTS: &[&str] = &["Filter", "Page", "Sort", "_Input"];
+const SCALARS: &[&str] = &["Date", "JSON", "URL", "_Any"];
 const DIRECTIVES: &[&str] = &["auth", "tag", "cost"];
 const FIELDS: &[&str] = &["id", "name", "title", "body", "count", "score", "flag", "items", "owner", "author", "tags", "parent", "child", "kind", "at", "meta", "link"];
 const ARGS: &[&str] = &["first", "after", "filter", "sort", "id", "ids", "q", "role", "when"];
